@@ -3,10 +3,11 @@ import XmpModel.Sample
 harness/c20_sample.c and prints, per case, the loop-style model's result (`M`) and the
 closed-form specification's result (`S`) in the harness's canonical format:
 
-  case <id> <flags> <len> <lps> <lpe> <flg> <skip> <pos> <filehex> <bufhex>
+  case <id> <flags> <len> <lps> <lpe> <flg> <skip> <pos> <filehex> <bufhex> [<limit>]
   M|S <id> <ret> <len> <lps> <lpe> <flg> <tell> <allochex|NULL>
 
-`pos = -1`: NULL handle.  The file handed to the real code is `filehex`, positioned at `pos`.
+`pos = -1`: NULL handle.  `limit ≥ 0`: the handle is a callback handle whose read function delivers only
+`limit` bytes from `pos` on (model `loadS`/`Spec.loadS`); fields the property leaves open are printed as `?`.  The file handed to the real code is `filehex`, positioned at `pos`.
 The closed form is quadratic, it is evaluated only for allocations up to `specMax` bytes. -/
 open Xmp Xmp.Sample
 
@@ -34,7 +35,30 @@ def showResult (tag id : String) (pos : Int) (h0 : Hdr) (r : Result) : String :=
   match r with
   | .skipped h c => s!"{tag} {id} 0 {h.len} {h.lps} {h.lpe} {h.flg.toNat} {tell c} NULL"
   | .ok h a c => s!"{tag} {id} 0 {h.len} {h.lps} {h.lpe} {h.flg.toNat} {tell c} {toHex a}"
-  | .error => s!"{tag} {id} -1 {h0.len} {h0.lps} {h0.lpe} {h0.flg.toNat} ? NULL"
+  | .error => let _ := h0; s!"{tag} {id} -1 ? ? ? ? ? NULL"
+
+def runCase (out : IO.FS.Stream) (id flags len lps lpe flg skip pos fhex bhex : String) (limit : Option Nat) :
+    IO Unit := do
+  let flags := flags.toNat?.getD 0
+  let hd : Hdr := { len := len.toInt?.getD 0, lps := lps.toInt?.getD 0, lpe := lpe.toInt?.getD 0,
+                    flg := BitVec.ofNat 32 (flg.toNat?.getD 0) }
+  let skip := (skip.toNat?.getD 0) &&& 2 != 0
+  let pos := pos.toInt?.getD 0
+  let file := parseHex fhex
+  let f : Option Bytes := if pos < 0 then none else some (file.drop pos.toNat)
+  let buf := parseHex bhex
+  -- `limit`: bytes the handle's read function delivers (callback handle that comes back short);
+  -- absent = memory handle, everything promised is delivered
+  let m := match limit with
+    | none => load flags hd skip f buf
+    | some l => loadS flags hd skip f l buf
+  out.putStrLn (showResult "M" id pos hd m)
+  if file.length + buf.length ≤ specMax then
+    let s := match limit with
+      | none => Spec.load flags hd skip f buf
+      | some l => Spec.loadS flags hd skip f l buf
+    out.putStrLn (showResult "S" id pos hd s)
+  else out.putStrLn s!"S {id} toolarge"
 
 partial def loop (h : IO.FS.Stream) (out : IO.FS.Stream) : IO Unit := do
   let line ← h.getLine
@@ -42,18 +66,11 @@ partial def loop (h : IO.FS.Stream) (out : IO.FS.Stream) : IO Unit := do
   let ws := line.trimAscii.toString.splitOn " "
   match ws with
   | ["case", id, flags, len, lps, lpe, flg, skip, pos, fhex, bhex] =>
-    let flags := flags.toNat?.getD 0
-    let hd : Hdr := { len := len.toInt?.getD 0, lps := lps.toInt?.getD 0, lpe := lpe.toInt?.getD 0,
-                      flg := BitVec.ofNat 32 (flg.toNat?.getD 0) }
-    let skip := (skip.toNat?.getD 0) &&& 2 != 0
-    let pos := pos.toInt?.getD 0
-    let file := parseHex fhex
-    let f : Option Bytes := if pos < 0 then none else some (file.drop pos.toNat)
-    let buf := parseHex bhex
-    out.putStrLn (showResult "M" id pos hd (load flags hd skip f buf))
-    if file.length + buf.length ≤ specMax then
-      out.putStrLn (showResult "S" id pos hd (Spec.load flags hd skip f buf))
-    else out.putStrLn s!"S {id} toolarge"
+    runCase out id flags len lps lpe flg skip pos fhex bhex none
+    loop h out
+  | ["case", id, flags, len, lps, lpe, flg, skip, pos, fhex, bhex, limit] =>
+    let l := limit.toInt?.getD (-1)
+    runCase out id flags len lps lpe flg skip pos fhex bhex (if l < 0 then none else some l.toNat)
     loop h out
   | _ => loop h out
 
